@@ -55,6 +55,10 @@ Families == [
   \* a slot used more than once in the body: every $n is replaced by exactly the tokens bound to slot n
   dup |-> [v |-> {Ida, Idb, One, Plus, Semi, KRun, KWith, KEnd},
            m |-> << Mac(0, <<S("ID"), L("op","+"), S("VALUE")>>, <<Ins(0), Asg, Ins(1), Semi, Ins(0), Asg, Ins(1), Ins(0)>>) >>],
+  \* layered macros: the body of one introduces the operator that the pattern of the other needs (it occurs nowhere in the input)
+  layered |-> [v |-> {Ida, Idb, One, Star, Semi},
+               m |-> << Mac(5, <<S("ID"), L("op","*")>>, <<Ins(0), Plus, Ins(0)>>),
+                        Mac(3, <<S("VALUE"), L("op","+"), S("VALUE")>>, <<KRun, Ida, KWith, Ins(0), Comma, Ins(1), KEnd>>) >>],
   \* VALUE and ARGS slots filled with nested calls
   args |-> [v |-> {Ida, Idx, One, Comma, KRun, KWith, KEnd, T("lparen","("), T("rparen",")")},
             m |-> << Mac(0, <<L("id","x"), L("lparen","("), S("ARGS"), L("rparen",")")>>, <<KRun, Ida, KWith, Ins(0), KEnd>>) >>],
